@@ -22,6 +22,8 @@ pub use bytes::B;
 
 pub const SHARDS: usize = 8;
 pub const WATCHDOG_SECS: u64 = 20;
+/// stack of each shard thread (the code under test recurses once per brace group)
+pub const SHARD_STACK: usize = 64 << 20;
 pub const MAX_SAMPLES: usize = 6;
 
 #[derive(Clone, Copy, Debug, PartialEq, Eq)]
@@ -147,7 +149,7 @@ pub struct RunCtx {
     pub hang_is_violation: bool,
 }
 
-pub trait AnyStream {
+pub trait AnyStream: Send + Sync {
     fn name(&self) -> &'static str;
     fn run(&self, ctx: &RunCtx) -> StreamReport;
     /// run the check on exactly one stored case; Ok(Ok) = holds
@@ -457,9 +459,10 @@ impl<C: Case> AnyStream for Stream<C> {
                             let slots = slots.clone();
                             let make = *make;
                             let (tier, seed, property) = (ctx.tier, ctx.seed, ctx.property);
-                            sc.spawn(move || {
+                            std::thread::Builder::new().stack_size(SHARD_STACK).spawn_scoped(sc, move || {
                                 install_panic_hook();
                                 let strategy = make(tier);
+                                let slow_ms: u64 = std::env::var("PV_SLOW_MS").ok().and_then(|v| v.parse().ok()).unwrap_or(0);
                                 let rng = shard_rng(seed, property, name, i);
                                 let mut runner =
                                     TestRunner::new_with_rng(proptest_config(per), rng);
@@ -467,8 +470,12 @@ impl<C: Case> AnyStream for Stream<C> {
                                 let res = runner.run(&strategy, |c| {
                                     *slots[i].cur.lock().unwrap() = Some((Instant::now(), c.clone()));
                                     let mut obs = Obs::default();
+                                    let t_case = Instant::now();
                                     let r = run_check(check, &c, &mut obs);
                                     *slots[i].cur.lock().unwrap() = None;
+                                    if slow_ms > 0 && t_case.elapsed().as_millis() as u64 >= slow_ms {
+                                        println!("SLOW {} ms: {}", t_case.elapsed().as_millis(), serde_json::to_string(&c).unwrap_or_default());
+                                    }
                                     let mut a = acc.borrow_mut();
                                     if !a.failed {
                                         a.record(&c, &obs, key);
@@ -505,6 +512,7 @@ impl<C: Case> AnyStream for Stream<C> {
                                 }
                                 a.rep
                             })
+                            .expect("spawn shard")
                         })
                         .collect();
                     hs.into_iter().map(|h| h.join().expect("shard thread")).collect()
@@ -518,7 +526,7 @@ impl<C: Case> AnyStream for Stream<C> {
                             let slots = slots.clone();
                             let make = *make;
                             let tier = ctx.tier;
-                            sc.spawn(move || {
+                            std::thread::Builder::new().stack_size(SHARD_STACK).spawn_scoped(sc, move || {
                                 install_panic_hook();
                                 let mut a = Acc::default();
                                 for c in make(tier).skip(i).step_by(SHARDS) {
@@ -538,6 +546,7 @@ impl<C: Case> AnyStream for Stream<C> {
                                 }
                                 a.rep
                             })
+                            .expect("spawn shard")
                         })
                         .collect();
                     hs.into_iter().map(|h| h.join().expect("shard thread")).collect()
@@ -621,6 +630,39 @@ pub fn load_known_findings() -> Vec<KnownFinding> {
     }
 }
 
+/// Replay one stored case on a helper thread; a case that does not finish within the watchdog
+/// budget ends the process (violation for the no-hang property, inconclusive otherwise).
+fn timed_replay(
+    s: &dyn AnyStream,
+    case: &Value,
+    what: &str,
+    property: &str,
+    hang_is_violation: bool,
+) -> Result<Result<(), String>, String> {
+    std::thread::scope(|sc| {
+        let (tx, rx) = std::sync::mpsc::channel();
+        std::thread::Builder::new()
+            .stack_size(SHARD_STACK)
+            .spawn_scoped(sc, move || {
+                install_panic_hook();
+                let _ = tx.send(s.replay(case));
+            })
+            .expect("spawn replay");
+        match rx.recv_timeout(Duration::from_secs(WATCHDOG_SECS)) {
+            Ok(r) => r,
+            Err(_) => {
+                println!("{} did not finish within {} s", what, WATCHDOG_SECS);
+                if hang_is_violation {
+                    println!("VIOLATION property={} replay={}", property, what);
+                    std::process::exit(1);
+                }
+                println!("INCONCLUSIVE: hang in code under test (see C17)");
+                std::process::exit(2);
+            }
+        }
+    })
+}
+
 fn find_stream<'a>(p: &'a Property, name: &str) -> Option<&'a dyn AnyStream> {
     p.streams.iter().find(|s| s.name() == name).map(|b| b.as_ref())
 }
@@ -660,7 +702,7 @@ pub fn run_property(p: &Property, tier: Tier, seed: u64) -> i32 {
     let mut known_report = vec![];
     for k in kfs.iter().filter(|k| k.property == p.id && k.status == "known") {
         if let Some(w) = &k.witness {
-            match find_stream(p, &w.stream).map(|s| s.replay(&w.case)) {
+            match find_stream(p, &w.stream).map(|s| timed_replay(s, &w.case, &format!("witness of {}", k.id), p.id, false)) {
                 Some(Ok(Err(_still_fails))) => {
                     let line = format!("KNOWN-FINDING: property={} {}", p.id, k.what);
                     println!("{}", line);
@@ -696,7 +738,7 @@ pub fn run_property(p: &Property, tier: Tier, seed: u64) -> i32 {
             println!("INCONCLUSIVE: regression {} names unknown stream {}", f.display(), sc.stream);
             return 2;
         };
-        match s.replay(&sc.case) {
+        match timed_replay(s, &sc.case, &f.display().to_string(), p.id, p.hang_is_violation) {
             Ok(Ok(())) => regressions += 1,
             Ok(Err(why)) => {
                 regressions += 1;
